@@ -131,6 +131,25 @@ Theorem C14_ops_are_steps : forall ops, ops_trace init ops = trace (steps_of ini
 Proof. exact ops_are_steps. Qed.
 Print Assumptions C14_ops_are_steps.
 
+(* At and beyond queue capacity.  The channel never holds more than qcap = 999 expiries ... *)
+Theorem C14_channel_bounded : forall xs, occupancy (final xs) <= qcap.
+Proof. exact channel_bounded. Qed.
+Print Assumptions C14_channel_bounded.
+
+(* ... a sender that finds it full stays blocked (state unchanged: nothing dropped) ... *)
+Theorem C14_full_channel_blocks : forall s k, occupancy s = qcap -> fire_send s k = (s, []).
+Proof. exact full_channel_blocks. Qed.
+Print Assumptions C14_full_channel_blocks.
+
+(* ... and delivers as soon as the owner has received one expiry, in every reachable state
+   (together with C14_exact_count: an expiry in flight is never lost). *)
+Theorem C14_blocked_send_delivers : forall xs k t,
+  aget k (objs (final xs)) = Some t -> t_tok t = Firing ->
+  (recvd (final xs) < length (queue (final xs)))%nat ->
+  trace (xs ++ [SRecv; SFireSend k]) = trace xs ++ [EQueued k].
+Proof. exact blocked_send_delivers. Qed.
+Print Assumptions C14_blocked_send_delivers.
+
 (* The executable monitor (Spec.monitor_from / Corr.monitor, unchanged) accepts the model's own
    observations for EVERY op list: a monitor failure on an implementation trace is therefore a
    behaviour the model - and with it the theorems above - excludes. *)
